@@ -82,6 +82,10 @@ def run(ctx):
              ('cf2d', dict(ny=4, nx=5, holes='river_i', bounds=False, invalid=False)),
              ('shoc_simple', dict(ny=4, nx=4, holes='river', bounds=False, invalid=False))]
     datasets = [gen.any_dataset(rng, f, **kw) for f, kw in fixed]
+    # meshes whose face-node table is stored nodes-first AND happens to be square (four quadrilaterals; three triangles)
+    datasets.append(gen.ugrid(rng, mesh=gen.lattice_mesh(rng, 2, 2, variety=False, drop=False), transposed=True, invalid=False, supplied=set()))
+    datasets.append(gen.ugrid(rng, mesh=([(0, 0), (8, 0), (16, 0), (0, 8), (8, 8)], [[0, 1, 3], [1, 4, 3], [1, 2, 4]]), transposed=True,
+                              invalid=False, supplied=set()))
     while len(datasets) < n_ds:
         datasets.append(gen.any_dataset(rng))
     # which cells have a polygon at all is decided from the dataset's coordinates by the polygon model (C06); a lookup that
@@ -95,7 +99,11 @@ def run(ctx):
         m_polys = pm.model_polygons_to_float(mres.v)
         with warnings.catch_warnings():
             warnings.simplefilter('ignore')
-            i_polys = pm.impl_polygons(d.ds.ems)
+            ri = attempt(pm.impl_polygons, d.ds.ems)
+        if ri[0] != 'ok':
+            ctx.report('property', f'the cells the lookup works on cannot be had: {ri[1]}', {'dataset': d.spec['label']})
+            continue
+        i_polys = ri[1]
         for n, (ip, mp) in enumerate(zip(i_polys, m_polys)):
             if ip is not None and mp is not None and ip != mp:
                 # the cell the lookup works on is not the cell the coordinates describe: look a point up where the two differ
